@@ -352,13 +352,38 @@ func runC08(c *Ctx) {
 		off := fl.FindCalls("internal/config.Config.DisableOnlineChecks")
 		c.Check(len(off) > 0, "C08-R4", "actionSetup->DisableOnlineChecks", setup.Decl.Pos(), "called", "actionSetup no longer calls DisableOnlineChecks")
 		for _, s := range off {
-			dom := fl.Dominated(s.Site, s.Inner, func(a Atom) bool {
-				call, ok := ast.Unparen(a.E).(*ast.CallExpr)
-				if !ok || !a.Truth || len(call.Args) != 1 {
+			isOfflineFlag := func(e ast.Expr) bool {
+				call, ok := ast.Unparen(e).(*ast.CallExpr)
+				if !ok || len(call.Args) != 1 {
 					return false
 				}
 				v, ok := constString(fl.Info, call.Args[0])
 				return ok && v == "offline"
+			}
+			dom := fl.Dominated(s.Site, s.Inner, func(a Atom) bool {
+				if !a.Truth || a.Tag != nil {
+					return false
+				}
+				if isOfflineFlag(a.E) {
+					return true
+				}
+				// a variable or field that holds the flag: every assignment to it in the function is c.Bool("offline")
+				key := exprIdentity(fl.Info, a.E)
+				n, all := 0, true
+				ast.Inspect(setup.Decl.Body, func(m ast.Node) bool {
+					if as, ok := m.(*ast.AssignStmt); ok && len(as.Lhs) == len(as.Rhs) {
+						for i, l := range as.Lhs {
+							if exprIdentity(fl.Info, l) == key {
+								n++
+								if !isOfflineFlag(as.Rhs[i]) {
+									all = false
+								}
+							}
+						}
+					}
+					return true
+				})
+				return n >= 1 && all
 			})
 			c.Check(dom, "C08-R4", "actionSetup:DisableOnlineChecks-under-offline-flag", s.Inner.Pos(), "guarded by the offline flag", "DisableOnlineChecks is not guarded by c.Bool(\"offline\")")
 		}
